@@ -80,7 +80,7 @@ def run(ctx):
                 ctx.bad('PANIC-C22a', f, 'explicit %s! is reachable from open/verify/doctor/read entry points: a crash-left or crafted file makes the process panic instead of returning an error'
                         % macro, line=c.line, sink='panic', detail='assert-on-untrusted-path:' + macro)
     ctx.extra['explicit_assertions_in_reach'] = n_assert
-    ctx.floor('PANIC-C22a:reach', len(reach), 600, 'functions reachable from the untrusted-input entry points')
+    ctx.floor('PANIC-C22a:reach', len(reach), 400, 'functions reachable from the untrusted-input entry points')
     # ---- allocations
     n_alloc = 0
     for f in sorted(reach.values(), key=lambda x: x.path):
@@ -146,7 +146,7 @@ def run(ctx):
             else:
                 ctx.bad('ALLOC-C22b', f, '%s is sized by %s, read from the file, with no bound against a constant or the file length on its path: a crafted size field aborts the process'
                         % (c.name, src), line=c.line, sink=c.name, detail='unbounded-alloc:' + key[1])
-    ctx.floor('ALLOC-C22b', n_alloc, 8, 'allocations sized by file-derived integers')
+    ctx.floor('ALLOC-C22b', n_alloc, 4, 'allocations sized by file-derived integers')
     # ---- subtractions
     ctx.rule('SUB-C22c', 'unsigned a - b with file-derived b is dominated by a b <= a edge for the same a, or b is clamped with min()')
     n_sub = 0
@@ -186,7 +186,7 @@ def run(ctx):
             else:
                 ctx.bad('SUB-C22c', f, 'unsigned subtraction of a file-derived value (%s) that is not bounded by the minuend on this path: a crafted field underflows (panic in debug, '
                         'wrapped offset and out-of-range slice in release)' % src, line=st.get('l'), sink='Sub', detail='unguarded-sub:' + (','.join(sorted(x for o, x in flds)) or 'from_le_bytes'))
-    ctx.floor('SUB-C22c', n_sub, 5, 'unsigned subtractions with a file-derived subtrahend')
+    ctx.floor('SUB-C22c', n_sub, 3, 'unsigned subtractions with a file-derived subtrahend')
     # ---- len - loop-carried window
     ctx.rule('SUB-C22d', 'len - w with a loop-carried w: every definition of w is clamped with min() / constant, or w <= len is established')
     n_w = 0
